@@ -1,9 +1,10 @@
 (* C14 — reshape operators are mutually inverse and cell-exact.
    Mechanised: transpose is an involution on rectangular tables; unflatten(flatten(t), n) gives back the data rows of an
-   n-field table.  recast(melt(t)) = sort(t, key), pivot cells, unpack/split frames, fromdicts(dicts(t)) and
-   fromcolumns(columns(t)) are modelled as written (model/Reshape.v), tied by the correspondence, and their round-trip
-   identities are judged on every run on the implementation's output (not mechanised). *)
-From Verif Require Import PyVal Rows Basics Reshape ReshapeFacts.
+   n-field table; recast after melt rebuilds every row cell for cell, one output row per input row in ascending key order,
+   when keys are unique (the row-building code of recast_model, named recast_group / recast_cell, on the sorted + grouped
+   melt).  Pivot cells, unpack/split frames, fromdicts(dicts(t)) and fromcolumns(columns(t)) are modelled as written
+   (model/Reshape.v), tied by the correspondence, and judged on every run on the implementation's output (not mechanised). *)
+From Verif Require Import PyVal Rows ComparableGen Sort Joins JoinRel Basics Reshape ReshapeFacts RecastFacts.
 
 Theorem C14_transpose_involutive : forall n hdr t, (1 <= n)%nat -> rect n (hdr :: t) ->
   exists tr, transpose_model (hdr :: t) = (tr, None) /\ transpose_model tr = (hdr :: t, None).
@@ -13,6 +14,33 @@ Theorem C14_unflatten_flatten_id : forall period missing (rows : list row), (1 <
   Forall (fun r => length r = period) rows ->
   unflatten_loop period missing [] (concat rows) = rows.
 Proof. exact unflatten_flatten_id. Qed.
+
+(* recast(melt(t)): rows = nk key cells ++ one value per variable name; names pairwise different; keys pairwise different.
+   The melted table is sorted by the key (any buffersize) and grouped; recast_group - the code that recast_model runs on every
+   group - returns, for the group of each key, the key cells followed by the row's own value under every requested variable
+   (js = the positions of the variables in the order recast lists them, e.g. sorted by name): nothing lost, nothing merged
+   into a list, nothing replaced by `missing`.  Groups come in strictly ascending key order and every input row has one. *)
+Theorem C14_recast_after_melt : forall (nk : nat) (names : list val) (missing : val),
+  (1 <= nk)%nat -> names <> [] -> distinct_names names ->
+  forall (bs : option nat) (rows : list row) (js : list nat),
+  (forall b, bs = Some b -> (1 <= b)%nat) ->
+  Forall (wide nk names) rows -> unique_keys nk rows -> Forall (fun j => (j < length names)%nat) js ->
+  let kidx := zrange nk 0 in
+  let gs := groupby (getkey kidx) (sort_data (row_leb false kidx) bs (flat_map (melt_of nk names) rows)) in
+  grp_sorted gs
+  /\ (forall g, In g gs -> exists r, In r rows /\ ceq (getkey kidx r) (fst g) = true /\
+        recast_group kidx (Z.of_nat nk) (Z.of_nat nk + 1) missing (map (fun j => nth j names VNone) js) g
+        = Ok (firstn nk r ++ map (fun j => nth j (skipn nk r) VNone) js))
+  /\ (forall r, In r rows -> exists g, In g gs /\ ceq (getkey kidx r) (fst g) = true).
+Proof. exact recast_melt. Qed.
+
+(* the cell law on its own: for the melt of one row, the cell under variable name_j is val_j *)
+Theorem C14_recast_cell_is_the_melted_value : forall (names : list val) (missing : val) (k vals : row) (js : list nat),
+  distinct_names names -> length vals = length names -> Forall (fun j => (j < length names)%nat) js ->
+  mapM (recast_cell (Z.of_nat (length k)) (Z.of_nat (length k) + 1) missing (melt_row names k vals))
+       (map (fun j => nth j names VNone) js)
+  = Ok (map (fun j => nth j vals VNone) js).
+Proof. exact recast_cells_of_melted_row. Qed.
 
 (* melt emits the same number of rows for every input row when no cell is missing (one per variable) *)
 Theorem C14_rows_times_variables : forall (A B : Type) (f : A -> list B) (l : list A) k,
@@ -28,6 +56,24 @@ Example C14_ex_melt :
       [VNum KInt (Fin 2); VStr [97]; VStr [121]]], None).
 Proof. vm_compute. reflexivity. Qed.
 
+(* the whole round trip on the operator models: melt by key k, recast back; rows come back sorted by key, variables by name *)
+Example C14_ex_recast_melt :
+  let t := [[VStr [107]; VStr [98]; VStr [97]];
+            [VNum KInt (Fin 2); VStr [120]; VNum KInt (Fin 1)];
+            [VNone; VStr [121]; VNone];
+            [VNum KInt (Fin 1); VNum KInt (Fin 5); VStr [122]]] in
+  let m := fst (melt_model (Some (VStr [107])) None (VStr (zs "variable")) (VStr (zs "value")) t) in
+  m = [VStr [107]; VStr (zs "variable"); VStr (zs "value")]
+      :: flat_map (melt_of 1 [VStr [98]; VStr [97]]) (tl t)
+  /\ recast_model None (VStr (zs "variable")) (VStr (zs "value")) 1000 VNone None m
+      = ([[VStr [107]; VStr [97]; VStr [98]];
+          [VNone; VNone; VStr [121]];
+          [VNum KInt (Fin 1); VStr [122]; VNum KInt (Fin 5)];
+          [VNum KInt (Fin 2); VNum KInt (Fin 1); VStr [120]]], None).
+Proof. vm_compute. split; reflexivity. Qed.
+
 Print Assumptions C14_transpose_involutive.
+Print Assumptions C14_recast_after_melt.
+Print Assumptions C14_recast_cell_is_the_melted_value.
 Print Assumptions C14_unflatten_flatten_id.
 Print Assumptions C14_rows_times_variables.
